@@ -77,6 +77,12 @@ func postC05(res *RunResult) {
 			addViolation(res, c, out, "independent recogniser rejects the bytes: "+gerr.Error())
 			continue
 		}
+		// the values on the wire against the File that was encoded
+		if cf := strings.SplitN(c, " ", 3); len(cf) == 3 {
+			if d := wireValuesAgree(cf[2], gi.recs); d != "" {
+				addViolation(res, c, out, "values on the wire differ from the File: "+d)
+			}
+		}
 		// File fields after Encode
 		h := strings.Split(strings.TrimPrefix(f[2], "H"), "/")
 		if len(h) == 6 {
